@@ -106,11 +106,16 @@ fn env_run(prop: &'static str, tier: &str, shard: Option<&str>) -> Report {
         (_, false) => 4,
         (_, true) => 5,
     };
-    let cfg = envcheck::EnvCfg { prop, horizon };
+    let cfg = envcheck::EnvCfg {
+        prop,
+        horizon,
+        warm_horizon: if thorough { horizon } else { horizon - 1 },
+    };
     let mut subs = subjects::all_subjects(prop, thorough);
-    if thorough {
+    {
         // Steady state too: every subject with inputs is also enumerated
-        // after a first delivery that gets it past its start-up transient.
+        // after a first delivery that gets it past its start-up transient
+        // (one step shallower in the quick tier).
         for s in subs.iter_mut() {
             if s.warmup.is_empty() && !s.infinite_source && !s.ins_hint_no_inputs() {
                 s.warmup = vec![envx::Act::FeedAll(2 * s.quantum.max(1) + 1)];
